@@ -356,6 +356,11 @@ async def daemon_killer(
 
     # Terminate all running daemons when the operator exits (and this task is cancelled).
     finally:
+        # The events that are still being processed by the workers (e.g. after a long handler)
+        # can spawn new daemons when this task is gone already: nobody would stop them in stages,
+        # they would run through the cleanup and be cancelled with other "hung" tasks. Treat
+        # the exiting as a pause never to be resumed: such daemons are stopped right on spawning.
+        await operator_paused.make_toggle(True, name="operator is exiting")
         for memory in list(memories.iter_all_daemon_memories()):
             for daemon in list(memory.running_daemons.values()):
                 await scheduler.spawn(
